@@ -673,8 +673,10 @@ func isRequestURIAllowed(c *goidc.Client, requestURI string) bool {
 
 func isAuthDetailTypeAllowed(c *goidc.Client, authDetailType string) bool {
 	// If the client didn't announce the authorization types it will use,
-	// consider any value valid.
-	if c.AuthDetailTypes == nil {
+	// consider any value valid. An empty list announces none either: it is
+	// not written when the client is serialized (omitempty) and comes back
+	// as nil from a storage that does so.
+	if len(c.AuthDetailTypes) == 0 {
 		return true
 	}
 
